@@ -13,6 +13,7 @@ import time
 VERIF = os.path.dirname(os.path.dirname(os.path.abspath(__file__)))
 BUILD = os.environ.get("VERIF_BUILD", os.path.join(VERIF, "build"))
 NWORKERS = int(os.environ.get("VERIF_WORKERS", "16"))
+OUT = os.environ.get("VERIF_OUT", VERIF)  # evidence/ and replays/ live here (redirected for mutant runs)
 
 SAN_ENV = {
     "ASAN_OPTIONS": "abort_on_error=1:detect_leaks=0:allocator_may_return_null=1:handle_abort=0",
@@ -257,7 +258,7 @@ def conclude(prop, tier, seed, level, total, viols, t0, rule, min_obs=None, extr
                 break
     rc = 0
     nviol = 0
-    os.makedirs(os.path.join(VERIF, "replays", prop), exist_ok=True)
+    os.makedirs(os.path.join(OUT, "replays", prop), exist_ok=True)
     for key in sorted(by_key):
         items = by_key[key]
         if (prop, key) in known:
@@ -265,7 +266,7 @@ def conclude(prop, tier, seed, level, total, viols, t0, rule, min_obs=None, extr
             continue
         nviol += len(items)
         rc = 1
-        fn = os.path.join(VERIF, "replays", prop,
+        fn = os.path.join(OUT, "replays", prop,
                           hashlib.md5(key.encode()).hexdigest()[:12] + ".json")
         msg, case, log = items[0]
         with open(fn, "w") as f:
@@ -300,8 +301,8 @@ def conclude(prop, tier, seed, level, total, viols, t0, rule, min_obs=None, extr
     ev = {"property_id": prop, "tier": tier, "seed": seed, "level": level, "coverage": cov,
           "assumptions": assumptions or [], "wall_s": round(time.time() - t0, 2),
           "violations": nviol}
-    os.makedirs(os.path.join(VERIF, "evidence"), exist_ok=True)
-    with open(os.path.join(VERIF, "evidence", prop + ".json"), "w") as f:
+    os.makedirs(os.path.join(OUT, "evidence"), exist_ok=True)
+    with open(os.path.join(OUT, "evidence", prop + ".json"), "w") as f:
         json.dump(ev, f, indent=1, default=lambda o: sorted(o) if isinstance(o, set) else str(o))
     print("%s %s seed=%d: %d cases, %d distinct non-trivial, %d violations, %.1fs; observed %s" % (
         prop, tier, seed, cov["evaluations"], cov["distinct_nontrivial"], nviol,
